@@ -49,6 +49,8 @@ def cases(tier, seed):
             out.append({"family": fam, "objective": "ELBO", "shape": [int(rng.choice([2, 8]))], "qform": "joint", "off": False, "seed": int(rng.integers(2**31)), "alpha": 0.0, "n": 2.0, "mvn_class_likelihood": True})
         out.append({"family": fam, "objective": obj, "shape": shape, "qform": "joint" if rng.random() < 0.7 else "bare",
                     "off": bool(rng.random() < 0.3), "seed": int(rng.integers(2**31)), "alpha": float(rng.choice([0.0, 0.5, 2.0])), "n": float(rng.choice([2.0, 3.0]))})
+        if fam == "mvn" and rng.random() < 0.5:
+            out[-1]["blocks"] = True
     for i in range(8 if tier == "quick" else 60):
         out.append({"family": FAMILIES[i % len(FAMILIES)], "objective": "driver", "shape": [int(rng.choice([1, 4, 16]))], "qform": "joint", "off": False, "seed": int(rng.integers(2**31))})
     return out
@@ -136,6 +138,15 @@ def build(case):
         d = int(rng.integers(2, 4))
         A = rng.normal(0, 1, (d, d))
         S0 = A @ A.T + np.eye(d)
+        blocks = bool(case.get("blocks"))
+        if blocks:
+            # the latent vector is a concatenation of two parameters of unequal length (1, 2) with independent priors:
+            # what a full-rank family over several model parameters looks like; q draws the whole vector
+            d = 3
+            A = rng.normal(0, 1, (2, 2))
+            S0 = np.zeros((3, 3))
+            S0[0, 0] = float(np.exp(rng.normal(0, 0.4)))
+            S0[1:, 1:] = A @ A.T + np.eye(2)
         B = rng.normal(0, 1, (d, d))
         Sig = B @ B.T + np.eye(d)
         m0 = rng.normal(0, 1, d)
@@ -147,6 +158,12 @@ def build(case):
         mu = np.zeros(d)
         logZ = sum(stats.multivariate_normal.logpdf(x, mu, Sig) for x in xs) + stats.multivariate_normal.logpdf(mu, m0, S0) - stats.multivariate_normal.logpdf(mu, mn, Sn)
         p = [{"id": "prior", "type": "MultivariateNormal", "x": P("z", [0.0] * d), "parameters": {"loc": P("m0", m0.tolist()), "covariance_matrix": P("S0", S0.tolist())}}]
+        prior_terms = ["prior"]
+        if blocks:
+            p = [{"id": "z", "type": "CatParameter", "parameters": [P("z1", [0.0]), P("z2", [0.0, 0.0])], "dim": -1},
+                 {"id": "prior1", "type": "MultivariateNormal", "x": "z1", "parameters": {"loc": P("m01", m0[:1].tolist()), "covariance_matrix": P("S01", S0[:1, :1].tolist())}},
+                 {"id": "prior2", "type": "MultivariateNormal", "x": "z2", "parameters": {"loc": P("m02", m0[1:].tolist()), "covariance_matrix": P("S02", S0[1:, 1:].tolist())}}]
+            prior_terms = ["prior1", "prior2"]
         for i, x in enumerate(xs):
             if case.get("mvn_class_likelihood"):
                 p.append({"id": "lik%d" % i, "type": "MultivariateNormal", "x": P("data%d" % i, x.tolist()), "parameters": {"loc": "z", "covariance_matrix": P("Sig%d" % i, Sig.tolist())}})
@@ -156,7 +173,7 @@ def build(case):
         qS = Sn * (1.3 if off else 1.0)
         q = {"id": "q", "type": "MultivariateNormal", "x": "z", "parameters": {"loc": P("q.m", qm.tolist()), "covariance_matrix": P("q.S", qS.tolist())}}
         ref = {"logq": lambda z: stats.multivariate_normal.logpdf(z, qm, qS), "entropy": stats.multivariate_normal.entropy(qm, qS)}
-        return {"p": p, "q": q, "joint_terms": ["prior"] + ["lik%d" % i for i in range(nobs)], "logZ": float(logZ), "ref": ref, "latent": "z", "qparam": "q.m"}
+        return {"p": p, "q": q, "joint_terms": prior_terms + ["lik%d" % i for i in range(nobs)], "logZ": float(logZ), "ref": ref, "latent": "z", "qparam": "q.m"}
     raise ValueError(fam)
 
 
